@@ -3320,7 +3320,18 @@ class QuicConnection:
             frame_type = QuicFrameType.PADDING
             reason_phrase = ""
 
+        # The reason phrase is only informational: shorten it, on a character
+        # boundary, rather than fail to send the frame when it does not fit.
+        capacity = (
+            APPLICATION_CLOSE_FRAME_CAPACITY
+            if frame_type is None
+            else TRANSPORT_CLOSE_FRAME_CAPACITY
+        )
         reason_bytes = reason_phrase.encode("utf8")
+        max_reason_length = max(0, builder.remaining_buffer_space - capacity)
+        if len(reason_bytes) > max_reason_length:
+            reason_phrase = reason_bytes[:max_reason_length].decode("utf8", "ignore")
+            reason_bytes = reason_phrase.encode("utf8")
         reason_length = len(reason_bytes)
 
         if frame_type is None:
